@@ -5,10 +5,10 @@ import (
 	"github.com/tonistiigi/fsutil/zz_verif/v"
 )
 
-var linkTargets = []string{"d", "d/x", "/d", "/", "..", "../f", "L2", "L", "nope", "/d/x", "d/M", "S/../f"}
-var requests = []string{"L", "L/x", "d/M", "f", "L2", "nope/z", "d/M/x", "L/y", "d/x", "L/L", "L/L2"}
+var vh_linkTargets = []string{"d", "d/x", "/d", "/", "..", "../f", "L2", "L", "nope", "/d/x", "d/M", "S/../f"}
+var vh_requests = []string{"L", "L/x", "d/M", "f", "L2", "nope/z", "d/M/x", "L/y", "d/x", "L/L", "L/L2"}
 
-func snapKind(snap []m.Entry, p string) (int, string, bool) {
+func vh_snapKind(snap []m.Entry, p string) (int, string, bool) {
 	for i := range snap {
 		if snap[i].Path == p {
 			return snap[i].Kind, snap[i].Target, true
@@ -17,7 +17,7 @@ func snapKind(snap []m.Entry, p string) (int, string, bool) {
 	return 0, "", false
 }
 
-func splitComps(p string) []string {
+func vh_splitComps(p string) []string {
 	var out []string
 	start := 0
 	for i := 0; i <= len(p); i++ {
@@ -35,8 +35,8 @@ func splitComps(p string) []string {
 // by component, symlinks expanded in place, ".." applied to the resolved location and clamped at the
 // root, at most 40 hops. It returns the symlinks traversed, the final location ("" = root) and
 // whether it exists; gaveUp reports the hop limit.
-func physResolve(snap []m.Entry, req string) (links []string, final string, exists bool, gaveUp bool) {
-	comps := splitComps(req)
+func vh_physResolve(snap []m.Entry, req string) (links []string, final string, exists bool, gaveUp bool) {
+	comps := vh_splitComps(req)
 	cur := ""
 	hops := 0
 	for i := 0; i < len(comps); i++ {
@@ -45,14 +45,14 @@ func physResolve(snap []m.Entry, req string) (links []string, final string, exis
 			continue
 		}
 		if c == ".." {
-			cur = specParent(cur)
+			cur = vh_specParent(cur)
 			continue
 		}
 		next := c
 		if cur != "" {
 			next = cur + "/" + c
 		}
-		kind, target, ok := snapKind(snap, next)
+		kind, target, ok := vh_snapKind(snap, next)
 		if !ok {
 			return links, "", false, false
 		}
@@ -63,7 +63,7 @@ func physResolve(snap []m.Entry, req string) (links []string, final string, exis
 				return links, "", false, true
 			}
 			rest := append([]string(nil), comps[i+1:]...)
-			comps = append(splitComps(target), rest...)
+			comps = append(vh_splitComps(target), rest...)
 			if len(target) > 0 && target[0] == '/' {
 				cur = ""
 			}
@@ -78,9 +78,9 @@ func physResolve(snap []m.Entry, req string) (links []string, final string, exis
 	return links, cur, true, false
 }
 
-func coveredBy(res []string, p string) bool {
+func vh_coveredBy(res []string, p string) bool {
 	for _, r := range res {
-		if r == p || specInside(p, r) {
+		if r == p || vh_specInside(p, r) {
 			return true
 		}
 	}
@@ -103,13 +103,13 @@ func VH_C18_resolve() {
 	m.MkDir(root+"/d/s", 0755, 0, 0, 5)
 	m.MkFile(root+"/d/f", []byte("df"), 0644, 0, 0, 5)
 	m.MkSymlink(root+"/S", "d/s", 0, 0, 5)
-	tL := linkTargets[v.Choose("target-L", len(linkTargets))]
+	tL := vh_linkTargets[v.Choose("target-L", len(vh_linkTargets))]
 	m.MkSymlink(root+"/L", tL, 0, 0, 5)
-	tL2 := linkTargets[v.Choose("target-L2", len(linkTargets))]
+	tL2 := vh_linkTargets[v.Choose("target-L2", len(vh_linkTargets))]
 	m.MkSymlink(root+"/L2", tL2, 0, 0, 5)
 	tM := ""
 	if v.Bool("has-d/M") {
-		tM = linkTargets[v.Choose("target-M", len(linkTargets))]
+		tM = vh_linkTargets[v.Choose("target-M", len(vh_linkTargets))]
 		m.MkSymlink(root+"/d/M", tM, 0, 0, 5)
 	}
 	snap := m.Snapshot(root)
@@ -119,7 +119,7 @@ func VH_C18_resolve() {
 	}
 	reqs := make([]string, nreq)
 	for i := range reqs {
-		reqs[i] = requests[v.Choose("req", len(requests))]
+		reqs[i] = vh_requests[v.Choose("req", len(vh_requests))]
 	}
 	res, err := FollowLinks(fs, reqs)
 	v.Assert(err == nil, "FollowLinks succeeds (dangling and looping links are not errors)")
@@ -132,7 +132,7 @@ func VH_C18_resolve() {
 		}
 		for j := range res {
 			if i != j {
-				v.Assert(!specInside(res[i], res[j]), "no element of the result is inside another")
+				v.Assert(!vh_specInside(res[i], res[j]), "no element of the result is inside another")
 			}
 		}
 	}
@@ -144,7 +144,7 @@ func VH_C18_resolve() {
 	type need struct{ p string }
 	var needs []string
 	for _, rq := range reqs {
-		links, final, exists, gaveUp := physResolve(snap, rq)
+		links, final, exists, gaveUp := vh_physResolve(snap, rq)
 		if gaveUp {
 			v.Cover("hop-limit")
 			continue // only termination is asserted for requests on which the reference itself gives up
@@ -155,9 +155,9 @@ func VH_C18_resolve() {
 			}
 			seen[l] = true
 			needs = append(needs, l)
-			_, tgt, _ := snapKind(snap, l)
+			_, tgt, _ := vh_snapKind(snap, l)
 			past := false
-			for _, c := range splitComps(tgt) {
+			for _, c := range vh_splitComps(tgt) {
 				if c == ".." && past {
 					lexDots = true
 				}
@@ -178,7 +178,7 @@ func VH_C18_resolve() {
 		// known finding: link targets are cleaned lexically, the kernel resolves "c/.." through c
 		v.Cover("lexical-dotdot")
 		for _, p := range needs {
-			v.Assert(coveredBy(res, p), "the result covers every traversed symlink and the final location [class: link target with '..' after a symlink component, cleaned lexically]")
+			v.Assert(vh_coveredBy(res, p), "the result covers every traversed symlink and the final location [class: link target with '..' after a symlink component, cleaned lexically]")
 		}
 		return
 	}
@@ -194,9 +194,9 @@ func VH_C18_resolve() {
 	for _, p := range needs {
 		v.Cover("needs")
 		if revisit {
-			v.Assert(coveredBy(res, p), "the result covers every traversed symlink and the final location [class: symlink revisited with a different remainder]")
+			v.Assert(vh_coveredBy(res, p), "the result covers every traversed symlink and the final location [class: symlink revisited with a different remainder]")
 		} else {
-			v.Assert(coveredBy(res, p), "the result covers every traversed symlink and the final location")
+			v.Assert(vh_coveredBy(res, p), "the result covers every traversed symlink and the final location")
 		}
 	}
 }
